@@ -167,6 +167,9 @@ func parent(a []string) int {
 	if to == 0 {
 		to = 20 * time.Minute
 	}
+	if v, err := strconv.Atoi(os.Getenv("VERIF_TIMEOUT")); err == nil && v > 0 {
+		to = time.Duration(v) * time.Second
+	}
 	args := []string{"-s", "QUIT", "-k", "20", strconv.Itoa(int(to.Seconds())), bin, "--child", id, tier, strconv.FormatInt(seed, 10), workdir}
 	if replay != "" {
 		abs, _ := filepath.Abs(replay)
